@@ -17,6 +17,7 @@ let dispatchers : (string list -> string option) list = [
   C_segs.dispatch;
   C_tx.dispatch;
   C_cubic.dispatch;
+  C_wire.dispatch;
 ]
 
 let dispatch line =
